@@ -100,12 +100,16 @@ def attempt(heap0, recs, seed, back, uf_name=None, dtypes=None, form=None, tries
         o = ur.Outcome()
         o.skip = "no two-output ufunc accepts complex input"
         return o, {}
+    if step["m"] == "outer" and out_idx:
+        o = ur.Outcome()
+        o.skip = "outer with an out object needs an out of the outer shape"
+        return o, {}
     if len(cands) <= 2:
         tries = min(tries, 2)
     for t in range(tries):
         uf = byname[uf_name] if uf_name else rnd.choice(cands)
         w = ur.build_world(heap0, rnd, back, out_idx=out_idx, dtypes={int(k): v for k, v in (dtypes or {}).items()},
-                           force_full=step["m"] != "call")
+                           force_full=step["m"] != "call" or step["u"] == "matmul", square=step["u"] == "matmul")
         if w is None:
             o = ur.Outcome()
             o.skip = "unrealisable"
@@ -421,6 +425,11 @@ def run(chk):
     for v in sorted(set(negs)):
         jobs["Neg_Ufunc_%s.cfg" % v] = pool.submit(tlc.run, "MC_Ufunc", "Neg_Ufunc_%s.cfg" % v, workers=2, timeout=600)
     groups, asarr, qeq = build_tables(d1)
+    try:
+        import ufunc_trace
+        ufunc_trace.start(chk.seed, 1.0 if thorough else 0.5, 40000 if thorough else 6000)
+    except ImportError:
+        pass
     stats["generated_d1_records"] = len(d1)
     stats["generated_chains"] = len(chains)
     budget = 540 if thorough else 62
